@@ -397,6 +397,9 @@ func (server *SugarDB) VerifFSMSnapshotFinish(dst *SugarDB, msec int64) error {
 	return dst.raft.VerifFSMRestore(data)
 }
 
+// VerifRaftTakeSnapshot: a user-triggered raft snapshot on this node (what SAVE does in cluster mode).
+func (server *SugarDB) VerifRaftTakeSnapshot() error { return server.raft.TakeSnapshot() }
+
 // VerifRaftSnapshotTo: a real raft snapshot of this node, restored on dst through raft.
 func (server *SugarDB) VerifRaftSnapshotTo(dst *SugarDB) error {
 	return server.raft.VerifSnapshotTo(dst.raft)
